@@ -244,7 +244,7 @@ pub fn run(g: &mut Global) {
         &check,
     );
     let th = g.tier == Tier::Thorough;
-    g.random("random", g.tier.pick(100000, 1000000), &move || strategy(th), &check);
+    g.random("random", g.tier.pick(100000, 10000000), &move || strategy(th), &check);
     if g.tier == Tier::Thorough {
         g.fuzz_stage("ops_pred", Some(1), 600_000, "random", &|b| crate::fuzzdec::decode_c08(b), &check);
     }
